@@ -227,7 +227,9 @@ bool isCellMLBasicReal(const std::string &candidate)
             if (beginsMinus) {
                 numbersOnlyCandidate.erase(0, 1);
             }
-            return std::all_of(numbersOnlyCandidate.begin(), numbersOnlyCandidate.end(), isEuropeanNumericCharacter);
+            // At least one digit is required: "-", "." and "-." are not numbers.
+            return !numbersOnlyCandidate.empty()
+                   && std::all_of(numbersOnlyCandidate.begin(), numbersOnlyCandidate.end(), isEuropeanNumericCharacter);
         }
     }
     return false;
